@@ -112,12 +112,17 @@ Proof. intros s progs sched. apply conc_no_deadlock, conc_no_leak. Qed.
 Print Assumptions C03_no_deadlock.
 
 (* the lock order behind it: a thread that waits for mu holds nothing; a thread that waits for a
-   file mutex holds no file mutex (it may hold mu) *)
+   file mutex does not hold that mutex, and it holds another file mutex only together with mu
+   WRITE-locked.  (Ranks: mu, then directory mutexes - Rename holds the two parents of the entry
+   and, inside them, the directory whose children it re-keys -, then the mutex of the entry whose
+   name changes.  Only the holder of mu write-locked nests, so there is one such thread at a time,
+   and every other holder of a file mutex releases it without waiting.) *)
 Theorem C03_lock_order :
   forall s progs sched t th l r,
     nth_error (cf_threads (cc_run_from s progs sched)) t = Some th ->
     cc_next_of th = NxInstr (CcAcq l r) ->
-    th_f th = None /\ (l <> LkF -> th_mu th = HNone).
+    (l <> LkF -> th_mu th = HNone /\ th_f th = []) /\
+    (l = LkF -> cc_heldb r (th_f th) = false /\ (th_f th = [] \/ th_mu th = HW)).
 Proof. intros s progs sched t th l r. apply conc_lock_order, conc_no_leak. Qed.
 Print Assumptions C03_lock_order.
 
@@ -173,13 +178,15 @@ Print Assumptions C03_no_unlock_error.
 
 (* ================================================================== panics *)
 (* the section table is well bracketed: whatever a section finds, the code it continues with never
-   releases a lock that is not held, takes mu only with nothing held and reaches every later
-   section under that section's declared locks; when it panics, the deferred unlocks registered so
-   far release everything — except in the one leaky (legacy) section *)
+   releases a lock that is not held, takes mu only with nothing held, takes a file mutex only if it
+   does not hold it and - when it holds another one - only with mu write-locked, and reaches every
+   later section under that section's declared locks; when it panics, the deferred unlocks
+   registered so far release everything — except in the one leaky (legacy) section.  ([h]: the file
+   mutexes held when the section runs, as many as its declared context says) *)
 Theorem C03_section_table_well_bracketed :
-  forall a f s,
+  forall a f s h, length h = ctx_len a ->
     match cc_sem a f s with
-    | CcCont _ _ code => cc_ok_ctx a code = true
+    | CcCont _ _ code => cc_ok_ctx a h code = true
     | CcPanic _ => cc_leaky a = true \/ cc_okd_ctx a = true
     end.
 Proof. exact cc_sem_ok. Qed.
@@ -273,7 +280,8 @@ Print Assumptions C03_quiescent_refuted_before_ce143d9.
    the harness extracts the same rows from the AST of /repo and compares) passes the static
    discipline check of Model/ConcStatic.v: for every function entered holding nothing, on every
    path (both branches of every if, loops, calls inlined): no unlock of a lock not held, mu never
-   taken while mu or a file mutex is held, file mutexes never nested, every return and every
+   taken while mu or a file mutex is held, a file mutex taken while another one is held only with mu
+   write-locked and at most four deep (Rename), every return and every
    log.Panic — after the deferred unlocks of all unwound frames — leaves nothing locked. *)
 Theorem C03_source_table_balanced : cc_tab_check cc_locktab_src = true.
 Proof. vm_compute. reflexivity. Qed.
@@ -283,16 +291,24 @@ Print Assumptions C03_source_table_balanced.
    sections of Model/Conc.v were compiled by hand from the table declared there (cc_locktab).  The
    two are the same table: an edit of the locking in memmap.go / mem/*.go breaks this theorem
    (and shows up as a `locks` correspondence mismatch), telling that the sections must be revisited. *)
+(* in the source table a file mutex is taken while another one is held in Rename and its two helpers
+   only - always with mu write-locked and at most [cc_max_nest] = 4 deep (part of the check above) *)
+Theorem C03_source_table_nesting :
+  cc_tab_nesting cc_locktab_src =
+  map cc_bytes ["MemMapFs.Rename"; "MemMapFs.renameDescendants"; "MemMapFs.renameSiblings"]%string.
+Proof. vm_compute. reflexivity. Qed.
+Print Assumptions C03_source_table_nesting.
+
 Theorem C03_declared_table_is_source_table : cc_locktab_b = cc_locktab_src.
 Proof. vm_compute. reflexivity. Qed.
 Print Assumptions C03_declared_table_is_source_table.
 
 (* the functions in which an explicit panic is reachable: Remove, RemoveAll, Rename (through
-   renameDescendants / unRegisterWithParent: "parent of ... is nil") — all under a deferred unlock *)
+   renameDescendants / renameSiblings / unRegisterWithParent: "parent of ... is nil") — all under a deferred unlock *)
 Theorem C03_source_table_panic_sites :
   cc_tab_can_panic cc_locktab_src =
   map cc_bytes ["MemMapFs.Remove"; "MemMapFs.RemoveAll"; "MemMapFs.Rename"; "MemMapFs.renameDescendants";
-                "MemMapFs.unRegisterWithParent"]%string.
+                "MemMapFs.renameSiblings"; "MemMapFs.unRegisterWithParent"]%string.
 Proof. vm_compute. reflexivity. Qed.
 Print Assumptions C03_source_table_panic_sites.
 
